@@ -40,7 +40,9 @@ def roundtrip_strategy():
                 "aes_rand": st.binary(min_size=16, max_size=16),
                 "infolen": st.one_of(st.sampled_from([0, 1, lim - 2, lim - 1, lim, lim + 1, lim + 2, lim + 50]), st.integers(0, lim)),
                 "infobyte": st.binary(min_size=1, max_size=8),
-                "size_field": S.u32,
+                # the stale size the caller leaves in the field: any value, incl. ones whose bytes also occur elsewhere in the
+                # serialised metadata (the magic 00 00 BE EF in front of it, other fields) and the already-consistent one
+                "size_field": st.one_of(S.u32, st.sampled_from([0x0000BEEF, 0x00BEEF00, 0xBEEFBEEF, 0xEFEFEFEF, 0xBEEF0000, 0x00000000, 51, 52, 0x33000000, 0x00003300])),
             }
         )
 
